@@ -6,7 +6,7 @@ CONSTANTS
   UVC1 <- AllVC
   Routes <- AllCopyRoutes
   Pairs <- PairsAll
-  UPairs <- PairsAll
+  UPairs <- UPairsFull
   Ops <- OpsAll
   OutOps <- OpsOutAll
   Shapes <- ShapesAll
@@ -15,7 +15,7 @@ CONSTANTS
   CDA <- DT15
   CDE <- DT15
   CVB <- AllVC
-  CPairs <- PairsAll
+  CPairs <- PairsSix
   COps <- COpsFull
 INIT Init
 NEXT Next
